@@ -11,12 +11,20 @@ LEVEL_TEXT = ("PARTIAL (hypotheses about two third-party parsers remain). Proved
               "(Text path: text_to_html_escaped_and_anchored) every markup "
               "byte of the input is escaped invertibly, anchors stand around exactly the URL match segments, every tag is one of three "
               "generated forms, every href is attribute-safe; the SCHEME of a generated href is NOT restricted (see not_proved). Each model is compared byte for byte with the real function on every case "
-              "(sanitizeStyle, sanitizeStyleTags, policy.Sanitize incl. rendering, TextToHTML). NOT proved: that the HTML tokenizer and the "
-              "CSS scanner see what a browser sees.")
+              "(sanitizeStyle, sanitizeStyleTags, policy.Sanitize incl. rendering, TextToHTML); the tokenizer's tag scanner is modelled too, compared on every start tag, and proved to read "
+              "back what styleTagFilter writes (rewritten_tag_scans_back). The structure of sanitize.HTML (two passes, order, data flow, every "
+              "pass unconditional, tokenizer unconfigured) is read from the source on every run and proved to be the model's composition "
+              "(html_pipeline_pinned). The text is recoverable from TextToHTML's output (text_recoverable). NOT proved: that the HTML "
+              "tokenizer (tag boundaries, entity decoding) and the CSS scanner see what a browser sees.")
 LEVEL_NOTE = ("Remaining hypotheses about third-party code (each validated per case, never proved): "
               "(H-tok) x/net/html tokenizer: the token list it reports for a document is what a browser would build from the same bytes, and "
               "re-tokenising a rendered token list gives that list back (checked: the final output is re-tokenised and re-parsed as a tree, "
-              "every start tag judged by the extracted spec tag_inert); "
+              "every start tag judged by the extracted spec tag_inert). NARROWED: the tokenizer's tag scanning (name, attribute key / value "
+              "spans, self-closing test) is now modelled (Model/SanitizeTag.v), compared with the real tokenizer on the raw bytes of every start "
+              "tag of every document and rewritten document, and rewritten_tag_scans_back + scan_gives_wf prove that a tag styleTagFilter wrote "
+              "scans back into exactly the attributes it wrote; for style values the hypothesis is evaluated in computable form on every case "
+              "(h_tok_style_check, html_style_clause_checked). What remains assumed of the tokenizer: where a tag starts (text / raw-text / "
+              "comment states) and its entity decoding; "
               "(H-css) gorilla/css scanner: a browser splits a style value into declarations where the scanner sees ';' tokens (checked: every "
               "style value of the final output is re-scanned, each declaration head must be allow-listed); "
               "(H-url) net/url: the String() of a successfully parsed URL shows a browser the scheme Parse reported (hypothesis of "
@@ -63,6 +71,8 @@ NOT_PROVED = [
     "'Sanitising never fails or panics on malformed markup': no theorem (the models are total over already-produced token lists; an error can "
     "only come from the tokenizer, e.g. a buffer limit). Covered by testing only: long-token family + mutated/raw streams in html and msg kinds, "
     "oracle verdicts fail:sanitiser-returned-error / fail:sanitiser-panicked",
+    "H-tok is narrowed, not discharged: tag boundaries (where a '<' starts a tag) and entity decoding stay assumptions about x/net/html; the tag "
+    "scanner itself is modelled and proved to read back what styleTagFilter writes",
     "H-tok, H-css (what a browser sees vs what x/net/html and gorilla/css report): hypotheses, see assumptions; html_style_clause states H-tok explicitly",
 ]
 
